@@ -439,8 +439,7 @@ class Node:
             # this connection has completed its capabilities exchange, a
             # previous one that is still pending does not take precedence
             peer.connection = conn
-        if conn.ident in self._half_ready_connections:
-            del self._half_ready_connections[conn.ident]
+        if self._half_ready_connections.pop(conn.ident, None) is not None:
             peer.last_connect = int(time.time())
 
     def _check_timers(self, conn: PeerConnection):
@@ -1435,12 +1434,11 @@ class Node:
                 one of the `PEER_DISCONNECT_REASON_*` constant values.
 
         """
-        if conn.ident in self.connections:
-            del self.connections[conn.ident]
-        if conn.ident in self.peer_sockets:
-            del self.peer_sockets[conn.ident]
-        if conn.ident in self._half_ready_connections:
-            del self._half_ready_connections[conn.ident]
+        # connections are removed by the node's main thread and by connection
+        # worker threads alike, possibly at the same time
+        self.connections.pop(conn.ident, None)
+        self.peer_sockets.pop(conn.ident, None)
+        self._half_ready_connections.pop(conn.ident, None)
         peer = self._find_connection_peer(conn)
         if peer and (peer.connection is None or peer.connection is conn):
             # unset so that a new connection may be made later; a peer that
@@ -1462,8 +1460,7 @@ class Node:
 
         # Remove pending answer tracking; we cannot know if the peer will
         # persist its hop-by-hop IDs over reconnect.
-        if conn.ident in self._peer_waiting_answer:
-            del self._peer_waiting_answer[conn.ident]
+        self._peer_waiting_answer.pop(conn.ident, None)
 
         # Check if this was the last available peer for an app and clear app
         # ready flag if so, resulting in `wait_for_ready` to block again.
